@@ -5,21 +5,81 @@ import CpProps.C05
   composed again, the composition is accepted, gives the same object and consumes everything
   (`Canonical`, CpProps/C05.lean).  It follows from `RoundTrip` and `ParseWf` for ONE predicate.
 
-  ClientHello and Certificate: unconditional.
-  ServerHello / HelloRetryRequest: `ParseWf` holds up to one shape of accepted value (`ShortSVS`):
-  the body parsers of the extension classes are not confined to the declared extension length, and
-  `TlsExtensionSupportedVersionsServer` reads a fixed two bytes; when fewer than two bytes are
-  declared it reads into the NEXT extension, and if that does not spell a known version the
-  extension is kept as `TlsExtensionUnparsed` — a value whose re-parse depends on its neighbour.
+  Certificate: unconditional.
+  The hello messages: `ParseWf` holds up to the accepted values whose re-parse depends on their
+  neighbour (`Stray` = `ShortSVS` ∨ `Ext2Stray`): the body parsers of the extension classes are not
+  confined to the declared extension length.  `TlsExtensionSupportedVersionsServer` reads a fixed two
+  bytes; when fewer than two are declared it reads into the NEXT extension, and if that does not
+  spell a known version the extension is kept as `TlsExtensionUnparsed` (`ShortSVS`, server side only).
+  The classes with structured bodies (server_name, ALPN, key_share, status_request, SCT list, …) read
+  length prefixes and items wherever they lead; when that ends in `InvalidValue` without the data
+  itself being rejectable (`Ext2Rejects`), the extension is kept raw (`Ext2Stray`, both sides).  The
+  full statements are kept as `def … : Prop`; the client one has a witness.
 -/
 namespace Cp.C05
 open Cp Cp.Codec Cp.Tls Cp.Hello
 
-/-- whatever `TlsHandshakeClientHello._parse` accepts is a constructible, canonical value -/
-theorem clientHello_parseWf : ParseWf clientHelloCodec ClientHelloWf := Tls.clientHello_parseWf
+/-- the full statement for the client side: whatever `TlsHandshakeClientHello._parse` accepts is a
+constructible value — FALSE of the code once the structured extension classes are looked at -/
+def clientHello_parseWf_full : Prop := ParseWf clientHelloCodec ClientHelloWf
 
-theorem clientHello_canonical : Canonical clientHelloCodec :=
-  of_laws Tls.clientHello_roundTrip Tls.clientHello_parseWf
+/-- a ClientHello whose ALPN extension declares NO data, followed by an extension of type 2 with 256
+bytes of data: the ALPN parser reads the `00 02` of the next header as the length of its name list
+and the `01 00` after it as a one-byte name `00`, which the table lacks → `InvalidValue`; the ALPN
+extension is kept raw with empty data — a value that is not constructible as such (an empty ALPN
+body reads on into whatever follows it) -/
+def strayAlpnHello : Bytes :=
+  let exts : Bytes := [0, 16, 0, 0] ++ [0, 2, 1, 0] ++ List.replicate 256 0
+  let body : Bytes := [3, 3] ++ List.replicate 32 7 ++ [0, 0, 2, 0x13, 0x01, 1, 0] ++ [1, 8] ++ exts
+  [1, 0, 1, 51] ++ body
+
+theorem clientHello_parseWf_fails : ¬ clientHello_parseWf_full := by
+  intro h
+  have hp : clientHelloCodec.parse strayAlpnHello =
+      .ok (⟨4, ⟨0x07070707, List.replicate 28 7⟩, [], [.known 361], [.known 0],
+        [⟨"TlsExtensionUnparsed", 16, .raw []⟩, ⟨"TlsExtensionUnparsed", 2, .raw (List.replicate 256 0)⟩],
+        false, false⟩, 311) := by
+    decide +kernel
+  have hw := h _ _ _ hp
+  have he := hw.extensions.each ⟨"TlsExtensionUnparsed", 16, .raw []⟩ (List.mem_cons_self ..)
+  cases he with
+  | unknownType _ _ hno => exact absurd (by decide +kernel) hno
+  | unparsed _ _ hr => exact absurd hr (by decide +kernel)
+  | noClass _ _ hr => exact absurd hr (by decide +kernel)
+  | rejected _ _ hr hne hk hrej =>
+    have hcls : resolve Gen.extVariantsClient 16 ([] : Bytes).length =
+        some "TlsExtensionApplicationLayerProtocolNegotiation" := by decide +kernel
+    rw [hcls] at hr
+    cases hr
+    cases hk
+    exact hrej
+  | parsed _ _ _ hne _ _ _ => exact absurd rfl hne
+
+/-- what holds: the accepted value is constructible unless it contains such a stray extension -/
+theorem clientHello_parseWf_partial (b : Bytes) (v : ClientHello) (n : Nat)
+    (h : clientHelloCodec.parse b = .ok (v, n)) :
+    ClientHelloWf v ∨ ∃ e ∈ v.extensions, Ext2Stray Gen.extVariantsClient e :=
+  Tls.clientHello_parseWf_partial b v n h
+
+/-- the full canonical-form statement for the client side; not proved (a stray extension recomposes
+to the same bytes in the same place, so no counterexample either) -/
+def clientHello_canonical_full : Prop := Canonical clientHelloCodec
+
+theorem clientHello_canonical_partial (b : Bytes) (v : ClientHello) (n : Nat)
+    (h : clientHelloCodec.parse b = .ok (v, n))
+    (hno : ∀ e ∈ v.extensions, ¬ Ext2Stray Gen.extVariantsClient e) :
+    ∃ b', clientHelloCodec.compose v = .ok b' ∧ clientHelloCodec.parse b' = .ok (v, b'.length) ∧
+      ∀ v'' n'', clientHelloCodec.parse b' = .ok (v'', n'') → clientHelloCodec.compose v'' = .ok b' := by
+  rcases Tls.clientHello_parseWf_partial b v n h with hw | ⟨e, he, hs⟩
+  · obtain ⟨b', hb', hbb⟩ := Tls.clientHello_roundTrip v hw
+    have hp := hbb []
+    rw [List.append_nil] at hp
+    refine ⟨b', hb', hp, ?_⟩
+    intro v'' n'' h2
+    rw [hp] at h2
+    cases h2
+    exact hb'
+  · exact absurd hs (hno e he)
 
 theorem certificate_parseWf : ParseWf certificateCodec CertificatesWf := Tls.certificate_parseWf
 
@@ -34,12 +94,12 @@ def serverHello_canonical_full : Prop :=
 `supported_versions` extension kept raw with fewer than two data bytes -/
 theorem serverHello_parseWf_partial (typ : Nat) (b : Bytes) (v : ServerHello) (n : Nat)
     (h : (serverHelloCodec typ).parse b = .ok (v, n)) :
-    ServerHelloWf typ v ∨ ∃ e ∈ v.extensions, ShortSVS Gen.extVariantsServer e :=
+    ServerHelloWf typ v ∨ ∃ e ∈ v.extensions, Stray Gen.extVariantsServer e :=
   Tls.serverHello_parseWf_partial typ b v n h
 
 theorem serverHello_canonical_partial {typ : Nat} (htyp : typ = 2 ∨ typ = 6) (b : Bytes) (v : ServerHello)
     (n : Nat) (h : (serverHelloCodec typ).parse b = .ok (v, n))
-    (hno : ∀ e ∈ v.extensions, ¬ ShortSVS Gen.extVariantsServer e) :
+    (hno : ∀ e ∈ v.extensions, ¬ Stray Gen.extVariantsServer e) :
     ∃ b', (serverHelloCodec typ).compose v = .ok b' ∧ (serverHelloCodec typ).parse b' = .ok (v, b'.length) ∧
       ∀ v'' n'', (serverHelloCodec typ).parse b' = .ok (v'', n'') → (serverHelloCodec typ).compose v'' = .ok b' := by
   rcases Tls.serverHello_parseWf_partial typ b v n h with hw | ⟨e, he, hs⟩
@@ -53,9 +113,9 @@ theorem serverHello_canonical_partial {typ : Nat} (htyp : typ = 2 ∨ typ = 6) (
     exact hb'
   · exact absurd hs (hno e he)
 
-/-- on the client side the exceptional shape cannot occur: no class of the client variant reads a
-fixed-size value that can be rejected -/
-theorem client_has_no_exception (e : Ext) : ¬ ShortSVS Gen.extVariantsClient e := client_no_shortSVS e
+/-- on the client side the `supported_versions` shape cannot occur: no class of the client variant
+reads a fixed-size value that can be rejected -/
+theorem client_has_no_shortSVS (e : Ext) : ¬ ShortSVS Gen.extVariantsClient e := client_no_shortSVS e
 
 /-! ### accepted inputs that are not in canonical form (evaluated on the model) -/
 
